@@ -7,8 +7,9 @@ interrogate_module -oc) x back-end (-c, -python, -python-native):
                     target is a directory, open failing with EACCES/EROFS through the injector -- we run as
                     root, so permission bits would not stop the tool) or is /dev/full;
   k-th write        a fault-free run under harness/preload/vf_fault.c records the number n of
-                    write(2)/writev(2) calls on the output; then the k-th one fails (ENOSPC / EIO), or is
-                    short and followed by a failure, for every selected k in 1..n;
+                    write(2)/writev(2) calls on the output; then the k-th one fails (ENOSPC / EIO) and so does
+                    every later one, or is short and followed by a failure, or fails alone while every later
+                    write succeeds again (transient), for every selected k in 1..n;
   close             the close of the output reports an error (deferred write-back error).
   strace (thorough) the same write failure injected by `strace -e inject` on the output path: a syscall-level
                     injector that shares nothing with the preload library (cross-check of the machinery).
@@ -34,7 +35,8 @@ STATIC = ["open-missing-dir", "open-through-file", "open-is-directory", "open-EA
 # fault kind of the case -> class used in the violation key (errno values are payload, folded away)
 FAULT_CLASS = {"open-missing-dir": "open-fail", "open-through-file": "open-fail", "open-is-directory": "open-fail",
                "open-EACCES": "open-fail", "open-EROFS": "open-fail", "devfull": "devfull",
-               "write": "write-fail", "short": "short-write", "close": "close-fail", "strace-write": "write-fail"}
+               "write": "write-fail", "short": "short-write", "close": "close-fail", "strace-write": "write-fail",
+               "once": "transient-write-fail"}
 FLAVOR = "ubsan"        # ASan replaces malloc and dislikes foreign preloads; UBSan does not
 
 
@@ -289,7 +291,7 @@ def run_case(ctx, case):
             ks = select_ks(n_writes, case.get("ksel", {}))
             for k in ks:
                 r, ev, t = rn.run(env={"VF_FAULT_PATH": True, "VF_FAULT_K": str(k), "VF_FAULT_ERRNO": errno,
-                                       "VF_FAULT_MODE": "short" if fault == "short" else "fail"})
+                                       "VF_FAULT_MODE": {"short": "short", "once": "once"}.get(fault, "fail")})
                 judge("k=%d" % k, r, any(e[0] == "INJECTED" for e in ev), pos_class(k, n_writes))
                 if os.path.isfile(t) and any(e[0] == "INJECTED" for e in ev):
                     res.count("truncated_output_left_behind")
@@ -339,7 +341,7 @@ def main(chk):
                      [(1, 2, 1, False), (3, 6, 4, True), (10, 10, 6, True), (30, 14, 10, True), (80, 16, 20, True)])
     headers = [iogen.header(random.Random(rng.getrandbits(64)), n_classes=a, n_methods=m, n_free=f, docs=dc, tag="io%d" % j)
                for j, (a, m, f, dc) in enumerate(sizes)]
-    kmax = chk.pick(9, 200)
+    kmax = chk.pick(24, 200)
     cases = []
     i = 0
     for tool, channel in CHANNELS:
@@ -350,11 +352,11 @@ def main(chk):
                     i += 1
                     cases.append(make_case(i, h, tool, channel, backend, fault))
             for j, h in enumerate(headers):
-                variants = [("write", "ENOSPC"), ("short", "ENOSPC"), ("close", "EIO")]
+                variants = [("write", "ENOSPC"), ("short", "ENOSPC"), ("close", "EIO"), ("once", "EIO")]
                 if j == len(headers) - 1 or not chk.quick():
                     variants += [("write", "EIO"), ("close", "ENOSPC")]
                 if not chk.quick():
-                    variants += [("short", "EIO"), ("write", "EDQUOT")]
+                    variants += [("short", "EIO"), ("write", "EDQUOT"), ("once", "ENOSPC")]
                     if j == 1:
                         variants += [("strace-write", "ENOSPC")]
                 for fault, errno in variants:
